@@ -56,6 +56,7 @@ ASSUMPTIONS = [
 # so a subprocess registers only 48 (+ <= 3 failed ndarray-mask registrations) and works them hard.
 STATIONS_PER_PROCESS = 48
 NDARRAY_EVERY = 19
+REUSE_EVERY = 7
 
 LAT_CLASSES = ["uniform", "p89.9", "uniform-south", "m89.9", "zero", "polarN", "polarS", "tiny"]
 LON_CLASSES = ["uniform", "m180", "zero", "p180", "p360", "east-neg", "gt180", "p90", "p270", "uniform2"]
@@ -111,6 +112,7 @@ def requirements(tier):
     req["mask-first-az-zero"] = 100 * k
     # the monitors really sat on the real functions
     req["call:create_station"] = 1400 * k
+    req["station-name-reused"] = 100 * k
     req["call:_geodetic_to_cartesian"] = 1400 * k
     req["call:get_mask"] = 50000 * k
     req["call:TopocentricOrientation._to_parent"] = 20000 * k
@@ -338,6 +340,26 @@ def run_case(ctx, job, idx, rng, st):
         station.mask = np.array([tab[0], tab[1]])  # as the repository's own tests do
         ctx.count("mask-given:assign-ndarray")
         mask_checks(ctx, rng, station, tab, "assign-ndarray", base_w)
+
+    if idx % REUSE_EVERY == 3:
+        # history: the same station NAME is registered again with other coordinates (the library logs "Overriding" and the
+        # newest registration wins): the geometry of the new station must be that of its own coordinates
+        st["earlier"] = [e for e in st["earlier"] if e[0] is not station]
+        lat2, lon2, alt2 = gen_lat(rng, "uniform"), gen_lon(rng, "uniform"), gen_alt(rng, "uniform")
+        ost2 = geo.Station(math.radians(lat2), math.radians(lon2), alt2, a, f)
+        w2 = dict(base_w, lat_deg=lat2, lon_deg=lon2, alt_m=alt2, reused_name=True, first_coordinates=[lat_deg, lon_deg, alt])
+        ctx.count("station-name-reused")
+        try:
+            station2 = stations.create_station(name, (lat2, lon2, alt2))
+        except Exception as exc:
+            ctx.violation("C11/create-station-raises-on-reused-name", dict(w2, exc=repr(exc)), f"create_station on a name used before raised {exc!r}")
+        else:
+            n0 = sum(v["count"] for v in ctx.violations.values())
+            station_checks(ctx, job, idx, rng, st, station2, ost2, date, w2)
+            topo_checks(ctx, idx, rng, st, station2, ost2, date, targets[:8], w2, StateVector, Orbit, measures)
+            n1 = sum(v["count"] for v in ctx.violations.values())
+            ctx.expect(n1 == n0, "C11/station-name-reuse-stale-geometry", w2,
+                       f"a station registered under a name used before (other coordinates) shows {n1 - n0} geometry violations")
 
     if idx % NDARRAY_EVERY == 0:
         # the documented type of `mask` is "2D array of float": hand an ndarray to create_station
